@@ -119,7 +119,7 @@ def scope_family() -> list[tuple[str, str, list]]:
     add("rt-args-buzzer", rt + "bz = Buzzer(8)\nbz.beep(va, on_ms=vb, off_ms=vc, times=va)\nbz.beep(frequency=va + 1, on_ms=vb + 1, off_ms=vc + 1, times=2)\nbz.play_tone(va, vb)\n"
         "bz.sweep(va, vb, vc, va)\nbz.melody(\"siren\", tempo=va)\nwhile True:\n    bz.beep(va, vb, vc, 2)\n    bz.sweep(va, vb, duration_ms=vc, steps=va)\n")
     add("rt-args-led-rgb", rt + "led = Led(5)\nrgb = RGBLed(3, 6, 9)\nled.blink(va, vb)\nled.fade_in(va, vb)\nled.fade_out(vb, va)\nled.flash_pattern([1, 0, 1], va)\nled.set_brightness(va)\n"
-        "rgb.set_color(va, vb, vc)\nrgb.blink(va, vb, vc, va, vb)\nrgb.fade(va, vb, vc, va, vb)\nwhile True:\n    rgb.fade(vc, vb, va, duration_ms=vb, steps=vc)\n    led.blink(vc, times=va)\n")
+        "led.flash_pattern([], va)\nled.flash_pattern([], 5)\nempty = []\nled.flash_pattern(empty, vb)\nrgb.set_color(va, vb, vc)\nrgb.blink(va, vb, vc, va, vb)\nrgb.fade(va, vb, vc, va, vb)\nwhile True:\n    rgb.fade(vc, vb, va, duration_ms=vb, steps=vc)\n    led.blink(vc, times=va)\n")
     add("rt-args-servo-motor", rt + "sv = Servo(10)\nmot = DCMotor(2, 4, 11)\nsv.write(va)\nsv.write_us(vb + 1000)\nmot.set_speed(va * 0.001)\nmot.backward(vb * 0.001)\nmot.ramp(va * 0.001, vb)\n"
         "mot.run_for(vb, vc * 0.001)\nwhile True:\n    mot.ramp(vc * 0.001, va)\n    mot.run_for(va, vb * 0.001)\n    sv.write(vc)\n")
     add("rt-args-lcd", rt + "lcd = LCD(rs=12, en=11, d4=5, d5=4, d6=3, d7=2)\nlcd.write(va, vb, \"x\")\nlcd.line(va, \"y\")\nlcd.progress(va, vb, max_value=vc + 1, width=va)\nlcd.brightness(va)\n"
